@@ -20,7 +20,7 @@ pub struct GenCfg {
     /// widen the filter operator menu (C04 uses all hint-relevant operators)
     pub wide_filters: bool,
     pub naming_devs: bool,
-    /// restrict the deviation kinds (labels: E C Po Poi Pf Px Pt Ae Fco Fcf Fct); None = all
+    /// restrict the deviation kinds (labels: E C Po Poi Pf Px Pt Pv Ae Fco Fcf Fct); None = all
     pub allow: Option<Vec<&'static str>>,
     /// restrict edge names / contents used by E (None = all)
     pub e_names: Option<Vec<&'static str>>,
@@ -191,7 +191,7 @@ pub fn prop_type(schema: &SchemaModel, ty: &str, prop: &str) -> Option<TyRef> {
 }
 
 /// (property, operator) menu for variable filters.
-pub const ALL_PROPS: [&str; 7] = ["id", "n", "s", "l", "ls", "f", "b"];
+pub const ALL_PROPS: [&str; 8] = ["id", "n", "s", "l", "ls", "ll", "f", "b"];
 pub const ALL_OPS: [&str; 20] = [
     "=", "!=", "<", "<=", ">", ">=", "one_of", "not_one_of", "contains", "not_contains", "has_prefix", "not_has_prefix", "has_suffix", "not_has_suffix", "has_substring", "not_has_substring", "regex", "not_regex", "is_null",
     "is_not_null",
@@ -412,6 +412,46 @@ pub fn deviations(schema: &SchemaModel, q: &Query, cfg: &GenCfg) -> Vec<Query> {
         }
     }
 
+    // Pv: reuse an existing variable in a second filter (the frontend intersects the types of all uses,
+    // or rejects incompatible ones)
+    if cfg.allows("Pv") {
+        let mut vars: Vec<String> = vec![];
+        fn collect_vars(n: &Node, out: &mut Vec<String>) {
+            for it in &n.items {
+                match it {
+                    Item::Prop(p) => {
+                        for d in &p.dirs {
+                            if let Dir::Filter { arg: Some(ArgRef::Var(v)), .. } = d {
+                                if !out.contains(v) {
+                                    out.push(v.clone());
+                                }
+                            }
+                        }
+                    }
+                    Item::Edge(e) => collect_vars(&e.node, out),
+                }
+            }
+        }
+        collect_vars(&q.node, &mut vars);
+        for v in vars.iter().filter(|v| !v.ends_with("_ty")) {
+            for ni in infos.iter() {
+                let node = node_at(q, &ni.path);
+                for (prop, op) in [("n", "="), ("id", "="), ("n", ">"), ("s", "="), ("n", "one_of"), ("l", "contains")] {
+                    if prop_type(schema, &ni.ty, prop).is_none() {
+                        continue;
+                    }
+                    let same = ArgRef::Var(v.clone());
+                    if has_dir(node, prop, |d| matches!(d, Dir::Filter { op: o, arg: Some(a) } if o == op && *a == same)) {
+                        continue;
+                    }
+                    let mut q2 = q.clone();
+                    add_prop_dir(node_at_mut(&mut q2, &ni.path), prop, Dir::Filter { op: op.to_string(), arg: Some(same) });
+                    out.push(q2);
+                }
+            }
+        }
+    }
+
     // deviations on edges
     for ni in infos.iter().skip(1) {
         let e = edge_at(q, &ni.path);
@@ -551,6 +591,26 @@ fn invalid_deviations(schema: &SchemaModel, q: &Query, infos: &[NodeInfo], out: 
                     rename_everywhere(&mut q2.node, b, a, tags);
                     out.push(q2);
                 }
+            }
+        }
+    }
+    // edge parameters of the wrong type / unknown / missing-required, on the root edge and on a new `nb` edge
+    for (k, v) in [("min", values::s("a")), ("min", FV::Float64(1.5)), ("min", values::list(vec![values::i(1)])), ("only", values::i(1)), ("zz", values::i(1)), ("min", FV::Boolean(true))] {
+        if q.root == "V" {
+            let mut q2 = q.clone();
+            q2.root_params = vec![(k.to_string(), v)];
+            out.push(q2);
+        }
+    }
+    for ni in infos {
+        if schema.field(&ni.ty, "nb").is_some() && count_vertices(q) < 4 {
+            for params in [vec![("min", values::s("a"))], vec![("min", FV::Null)], vec![("tag", values::i(1))], vec![("zz", values::i(1))], vec![("min", FV::Float64(1.5))], vec![("min", values::i(1)), ("min", values::i(2))]] {
+                let mut e = EdgeUse::new("nb");
+                e.params = params.into_iter().map(|(k, v)| (k.to_string(), v)).collect();
+                e.node.items.push(Item::Prop(PropUse::new("id")));
+                let mut q2 = q.clone();
+                node_at_mut(&mut q2, &ni.path).items.push(Item::Edge(e));
+                out.push(q2);
             }
         }
     }
